@@ -623,8 +623,9 @@ pub fn classify(t: &Ty, v: &Val, nullable: bool) -> Dom {
         (_, Val::Null) => if nullable { Dom::In } else { Dom::Out },
         (_, Val::Unset) => Dom::Out,
         (_, Val::Empty) => if supports_empty(t) { Dom::In } else { Dom::Out },
-        (Ty::Native(N::Ascii), Val::Ascii(b)) => if b.is_ascii() { Dom::In } else { Dom::Out },
-        (Ty::Native(N::Text), Val::Text(b)) => if std::str::from_utf8(b).is_ok() { Dom::In } else { Dom::Out },
+        // `String` serves both ascii and text; the value comes back under the constructor the type dictates
+        (Ty::Native(N::Ascii), Val::Ascii(b) | Val::Text(b)) => if b.is_ascii() { Dom::In } else { Dom::Out },
+        (Ty::Native(N::Text), Val::Text(b) | Val::Ascii(b)) => if std::str::from_utf8(b).is_ok() { Dom::In } else { Dom::Out },
         (Ty::Native(N::Blob), Val::Blob(_))
         | (Ty::Native(N::Boolean), Val::Boolean(_))
         | (Ty::Native(N::TinyInt), Val::TinyInt(_))
@@ -643,11 +644,12 @@ pub fn classify(t: &Ty, v: &Val, nullable: bool) -> Dom {
         | (Ty::Native(N::Duration), Val::Duration(..)) => Dom::In,
         (Ty::Native(N::Time), Val::Time(x)) => if (0..=86399999999999).contains(x) { Dom::In } else { Dom::Out },
         (Ty::Native(N::Varint), Val::Varint(b)) => if b.is_empty() { Dom::Out } else { Dom::In },
-        (Ty::List(e), Val::List(vs)) | (Ty::Set(e), Val::Set(vs)) => all(e, vs),
+        // `Vec<CqlValue>` serves list, set and vector alike
+        (Ty::List(e) | Ty::Set(e), Val::List(vs) | Val::Set(vs) | Val::Vector(vs)) => all(e, vs),
         (Ty::Map(kt, vt), Val::Map(kvs)) => kvs
             .iter()
             .fold(Dom::In, |d, (k, v)| join(d, join(classify(kt, k, false), classify(vt, v, false)))),
-        (Ty::Vector(e, dim), Val::Vector(vs)) => {
+        (Ty::Vector(e, dim), Val::Vector(vs) | Val::List(vs) | Val::Set(vs)) => {
             if *dim == 0 || vs.len() != *dim as usize {
                 return Dom::Out;
             }
@@ -691,9 +693,11 @@ pub fn pad(t: &Ty, v: &Val) -> Val {
         (Ty::Native(NativeType::Ascii), Val::Empty) => Val::Ascii(vec![]),
         (Ty::Native(NativeType::Text), Val::Empty) => Val::Text(vec![]),
         (Ty::Native(NativeType::Blob), Val::Empty) => Val::Blob(vec![]),
-        (Ty::List(e), Val::List(vs)) => Val::List(vs.iter().map(|v| pad(e, v)).collect()),
-        (Ty::Set(e), Val::Set(vs)) => Val::Set(vs.iter().map(|v| pad(e, v)).collect()),
-        (Ty::Vector(e, _), Val::Vector(vs)) => Val::Vector(vs.iter().map(|v| pad(e, v)).collect()),
+        (Ty::Native(NativeType::Ascii), Val::Text(b)) => Val::Ascii(b.clone()),
+        (Ty::Native(NativeType::Text), Val::Ascii(b)) => Val::Text(b.clone()),
+        (Ty::List(e), Val::List(vs) | Val::Set(vs) | Val::Vector(vs)) => Val::List(vs.iter().map(|v| pad(e, v)).collect()),
+        (Ty::Set(e), Val::List(vs) | Val::Set(vs) | Val::Vector(vs)) => Val::Set(vs.iter().map(|v| pad(e, v)).collect()),
+        (Ty::Vector(e, _), Val::List(vs) | Val::Set(vs) | Val::Vector(vs)) => Val::Vector(vs.iter().map(|v| pad(e, v)).collect()),
         (Ty::Map(kt, vt), Val::Map(kvs)) => Val::Map(kvs.iter().map(|(k, v)| (pad(kt, k), pad(vt, v))).collect()),
         (Ty::Tuple(ts), Val::Tuple(fs)) => {
             Val::Tuple(ts.iter().enumerate().map(|(i, t)| fs.get(i).map(|f| pad(t, f)).unwrap_or(Val::Null)).collect())
@@ -750,7 +754,7 @@ pub fn spec_body(t: &Ty, v: &Val) -> Option<Vec<u8>> {
             spec_vint(*d as i64, &mut o);
             spec_vint(*n, &mut o)
         }
-        (Ty::List(e), Val::List(vs)) | (Ty::Set(e), Val::Set(vs)) => {
+        (Ty::List(e) | Ty::Set(e), Val::List(vs) | Val::Set(vs) | Val::Vector(vs)) => {
             o.extend_from_slice(&(vs.len() as i32).to_be_bytes());
             for v in vs {
                 o.extend(spec_cell(e, v)?)
@@ -763,7 +767,7 @@ pub fn spec_body(t: &Ty, v: &Val) -> Option<Vec<u8>> {
                 o.extend(spec_cell(vt, v)?)
             }
         }
-        (Ty::Vector(e, _), Val::Vector(vs)) => {
+        (Ty::Vector(e, _), Val::Vector(vs) | Val::List(vs) | Val::Set(vs)) => {
             let fixed = size_for_vector(e).is_some();
             for v in vs {
                 let b = spec_body(e, v)?;
@@ -906,15 +910,20 @@ fn run_dyn(ty: &Ty, val: &Val, ctx: &mut Ctx) -> String {
     let body = split_cell(&cell, ctx);
     let dec = decode_dyn(&ct, body.as_deref());
     if dom != Dom::Out {
-        if dom == Dom::In {
-            match spec_cell(ty, val) {
-                Some(s) if s == cell => {}
-                s => ctx.fail(format!("wire-bytes: driver wrote {} but the CQL v4 encoding is {}", hex(&cell), s.map(|s| hex(&s)).unwrap_or("undefined".into()))),
-            }
+        // also for values containing a known-finding shape, wherever the protocol defines the bytes
+        match spec_cell(ty, val) {
+            Some(s) if s == cell => {}
+            None if dom != Dom::In => {}
+            s => ctx.fail(format!("wire-bytes: driver wrote {} but the CQL v4 encoding is {}", hex(&cell), s.map(|s| hex(&s)).unwrap_or("undefined".into()))),
         }
         let want = pad(ty, val);
         if dec.as_ref() != Ok(&want) {
             ctx.fail(format!("{}roundtrip: decode(encode v) = {} but pad v = {}", tag(dom), show_dec(&dec), val_str(&want)));
+        }
+    }
+    if let Some(want) = expected_outside(ty, val) {
+        if dec != want {
+            ctx.fail(format!("outside-domain: decode(encode v) = {} but {} is expected", show_dec(&dec), show_dec(&want)));
         }
     }
     format!("{} -> {}", hex(&cell), show_dec(&dec))
@@ -924,6 +933,17 @@ fn case_brief(ty: &Ty, val: &Val) -> String {
     let mut s = format!("{:?} <- {:?}", ty, val);
     s.truncate(200);
     s
+}
+
+/// Values outside the type's value space whose behaviour is nevertheless proved (Props/C01.lean:
+/// `time_out_of_range_example`, `empty_varint_example`): what decoding the driver's own bytes must give.
+fn expected_outside(ty: &Ty, v: &Val) -> Option<Result<Val, String>> {
+    match (ty, v) {
+        (Ty::Native(NativeType::Time), Val::Time(x)) if !(0..=86399999999999).contains(x) => Some(Err("ValueOverflow".to_owned())),
+        (Ty::Native(NativeType::Varint), Val::Varint(b)) if b.is_empty() => Some(Ok(Val::Empty)),
+        (Ty::Native(NativeType::Ascii), Val::Ascii(b) | Val::Text(b)) if !b.is_ascii() => Some(Err("ExpectedAscii".to_owned())),
+        _ => None,
+    }
 }
 
 pub fn tag(d: Dom) -> String {
@@ -955,6 +975,68 @@ pub fn run(case: &str, ctx: &mut Ctx) -> String {
                 return "bad-case".to_owned();
             }
             carrier::run_carrier(name, &ty, &val, ctx)
+        }
+        Some("dynraw") => {
+            // the writer in `write_size = false` mode at the top level (as a vector element is written)
+            let (Some(ty), Some(val)) = (parse_ty(&mut c), parse_val(&mut c)) else { return "bad-case".to_owned() };
+            if c.pos != c.toks.len() {
+                return "bad-case".to_owned();
+            }
+            let ct = to_column_type(&ty);
+            let mut buf = Vec::new();
+            let w = CellWriter::new_without_size(&mut buf);
+            let res = match &val {
+                Val::Null => None::<CqlValue>.serialize(&ct, w).map(|_| ()),
+                Val::Unset => Unset.serialize(&ct, w).map(|_| ()),
+                v => match to_cql(v) {
+                    Some(cv) => cv.serialize(&ct, w).map(|_| ()),
+                    None => return "bad-case".to_owned(),
+                },
+            };
+            match res {
+                Err(e) => format!("err {}", ser_kind(&e)),
+                Ok(()) => {
+                    if classify(&ty, &val, false) == Dom::In && spec_body(&ty, &val).as_deref() != Some(&buf[..]) {
+                        ctx.fail(format!("wire-bytes: unframed content {} is not the CQL v4 content", hex(&buf)));
+                    }
+                    hex(&buf)
+                }
+            }
+        }
+        Some("big") => {
+            // a blob of n zero bytes (lazily allocated): only the size check is exercised
+            let (Some(kind), Some(n)) = (c.next(), c.num()) else { return "bad-case".to_owned() };
+            if kind != "blob" || n > (1usize << 31) + 16 {
+                return "bad-case".to_owned();
+            }
+            let v = vec![0u8; n];
+            let mut buf = Vec::new();
+            match v.serialize(&ColumnType::Native(NativeType::Blob), CellWriter::new(&mut buf)) {
+                Ok(_) => {
+                    if n > i32::MAX as usize {
+                        ctx.fail(format!("size: a blob of {} bytes was accepted", n));
+                    }
+                    format!("ok {}", buf.len())
+                }
+                Err(e) => {
+                    if n <= i32::MAX as usize {
+                        ctx.fail(format!("size: a blob of {} bytes was rejected", n));
+                    }
+                    format!("err {}", ser_kind(&e))
+                }
+            }
+        }
+        Some("tdec") => {
+            let Some(name) = c.next() else { return "bad-case".to_owned() };
+            let Some(ty) = parse_ty(&mut c) else { return "bad-case".to_owned() };
+            match (c.next(), c.pos == c.toks.len()) {
+                (Some("null"), true) => carrier::run_tdec(name, &ty, None, ctx),
+                (Some(h), true) => match unhex(h) {
+                    Some(b) => carrier::run_tdec(name, &ty, Some(b), ctx),
+                    None => "bad-case".to_owned(),
+                },
+                _ => "bad-case".to_owned(),
+            }
         }
         Some("dec") => {
             let Some(ty) = parse_ty(&mut c) else { return "bad-case".to_owned() };
